@@ -31,11 +31,17 @@ type c19case struct {
 	Delay   int // ticks (retry: RetryDelay; timed: timeout)
 	Events  []tev
 	Horizon int
+	// Postpone: bit i set = the i-th call of the retry callback (0-based, over the whole history) answers
+	// ErrRetryPostponed: "the retry does not count and the callback is called again after retryDelay"
+	Postpone uint
 }
 
 func (c c19case) String() string {
 	var sb strings.Builder
 	fmt.Fprintf(&sb, "%s(count=%d,delay=%d)", c.Kind, c.Count, c.Delay)
+	if c.Postpone != 0 {
+		fmt.Fprintf(&sb, " postponed-calls=%b", c.Postpone)
+	}
 	for _, e := range c.Events {
 		o := ">"
 		if e.Before {
@@ -73,7 +79,9 @@ func c19ref(c c19case) c19obs {
 				return
 			}
 			if retries < c.Count {
-				retries++
+				if c.Postpone&(1<<uint(len(o.Callbacks))) == 0 {
+					retries++ // a postponed retry does not count
+				}
 				o.Callbacks = append(o.Callbacks, at)
 				deadline = at + c.Delay
 			} else {
@@ -119,7 +127,11 @@ func c19run(t *testing.T, c c19case) (c19obs, string) {
 		var rt *transactions.RetryTransaction
 		if c.Kind == "retry" {
 			rt = transactions.NewRetryTransaction(ctx, time.Duration(c.Delay)*tick, c.Count, func(interface{}) error {
+				postponed := c.Postpone&(1<<uint(len(o.Callbacks))) != 0
 				o.Callbacks = append(o.Callbacks, nowTick())
+				if postponed {
+					return transactions.ErrRetryPostponed
+				}
 				return nil
 			}, nil)
 			tx = rt
@@ -205,6 +217,20 @@ func c19cases(maxEvents int) []c19case {
 				}
 			}
 			rec([]tev{{0, "proceed", false}}, 0)
+		}
+	}
+	// the same histories (up to one event after the start) with some calls of the retry callback postponed
+	n := len(out)
+	for i := 0; i < n; i++ {
+		c := out[i]
+		if c.Count == 0 || len(c.Events) > 2 {
+			continue
+		}
+		for _, mask := range []uint{1, 2, 3, 4, 5, 6} {
+			v := c
+			v.Postpone = mask
+			v.Horizon += 3 * c.Delay
+			out = append(out, v)
 		}
 	}
 	for _, timeout := range []int{1, 3} {
@@ -318,7 +344,7 @@ func TestC19(t *testing.T) {
 		"timed_histories":               len(cases),
 		"exhaustive":                    true,
 		"samples":                       samples,
-		"rule":                          fmt.Sprintf("all timed histories on a 1-tick grid: RetryCount 0..3 x RetryDelay {2,3} ticks x Proceed@0 followed by up to %d events from {Proceed,Success,Fail} at every tick, ties with a timer instant in both orders; TimedTransaction timeout {1,3} x completion {none,Success,Fail} at tick 0..5; each history is executed on the real transaction under virtual time and compared with reference arithmetic (callback instants, completion instant, final error); states = distinct observations", maxEv),
+		"rule":                          fmt.Sprintf("all timed histories on a 1-tick grid: RetryCount 0..3 x RetryDelay {2,3} ticks x Proceed@0 followed by up to %d events from {Proceed,Success,Fail} at every tick, ties with a timer instant in both orders; the histories with at most one event after the start also with calls 0, 1, 2 of the retry callback (every combination but all three) answering ErrRetryPostponed (such a call does not count, the next one comes RetryDelay later); TimedTransaction timeout {1,3} x completion {none,Success,Fail} at tick 0..5; each history is executed on the real transaction under virtual time and compared with reference arithmetic (callback instants, completion instant, final error); states = distinct observations", maxEv),
 	}
 	rep.Assumptions = []string{"default schedule (no preemption inside one event); interleavings are C18's subject"}
 	rep.Finish()
